@@ -369,7 +369,8 @@ def judge_run(sh, sub, suffix, obs, rec, *, Lmax, rmse, rates, alpha_given):
         if weak_given:
             alpha_ref = float(alpha_given)
         else:
-            y = np.log2(np.array(ml_used[1:], dtype=float)) if len(ml_used) > 1 else np.array([])
+            with np.errstate(all="ignore"):
+                y = np.log2(np.array(ml_used[1:], dtype=float)) if len(ml_used) > 1 else np.array([])
             if y.size < 2 or not np.all(np.isfinite(y)):
                 alpha_refs.append(None)
                 sh.count("oracle_inconclusive")
